@@ -49,7 +49,7 @@ func runLog(rec *mon.Recorder, c int) {
 	if metric == 3 && dim == 1 {
 		dim = 2
 	}
-	g := &smx.Gen{Rng: rng, Dim: dim, Universe: 4 + rng.Intn(9), Metric: metric}
+	g := &smx.Gen{Rng: rng, Dim: dim, Universe: 4 + rng.Intn(9), Metric: metric, LongMeta: c%8 == 3}
 	sm := storage.VerifNewPartitionSM(uint32(dim), smx.SpaceOf(metric))
 	model := smx.NewModel()
 	var descs []string
@@ -66,6 +66,50 @@ func runLog(rec *mon.Recorder, c int) {
 		descs = append(descs, e.Desc)
 		kind := kindOf(e.Change)
 		before := sm.Index().VerifDump()
+		// Metadata that the snapshot format cannot express (a key over 255 bytes, a value over 65535): the partition may
+		// hold it like anything else, or refuse the operation with an error - then the operation changed nothing.
+		refusable := (kind == "insert" || kind == "update") && smx.OverLong(e.Change.GetMetadata())
+		if refusable {
+			rec.Count("single_ops_with_overlong_metadata", 1)
+			var got interface{}
+			var delivered bool
+			var err error
+			func() {
+				defer func() {
+					if p := recover(); p != nil {
+						err = fmt.Errorf("panic: %v", p)
+					}
+				}()
+				got, delivered, err = sm.Apply(e.Bytes)
+			}()
+			if err != nil {
+				fail("apply-error", kind, fmt.Sprintf("entry %d (%s): %v", i, e.Desc, err))
+				break
+			}
+			if ge, isErr := got.(error); delivered && isErr && ge != index.ItemNotFoundError && ge != index.ItemAlreadyExistsError {
+				if d := hx.DumpDiff(before, sm.Index().VerifDump()); d != "" {
+					fail("refused-op-changed-state", kind, fmt.Sprintf("entry %d (%s) was refused with %q but: %s", i, e.Desc, ge, d))
+					break
+				}
+				rec.Count("single_ops_with_overlong_metadata_refused", 1)
+				continue
+			}
+			want := model.Apply(e.Decode())
+			if d := smx.CompareOutcome(want, e.Change, got, delivered); d != "" {
+				fail("wrong-outcome", kind, fmt.Sprintf("entry %d (%s): %s", i, e.Desc, d))
+				break
+			}
+			if d := hx.ContentDiff(sm.Index().VerifDump(), model.Items); d != "" {
+				fail("contents", kind, fmt.Sprintf("after entry %d (%s): %s", i, e.Desc, d))
+				break
+			}
+			if want.Err != nil {
+				failedOps++
+			} else {
+				okOps++
+			}
+			continue
+		}
 		want := model.Apply(e.Decode())
 		var got interface{}
 		var delivered bool
